@@ -189,7 +189,7 @@ def cfg_strategy(draw, favs=True):
 @st.composite
 def case_strategy(draw, favs=True):
     cfg = draw(cfg_strategy(favs=favs))
-    scenario = draw(st.sampled_from(['config', 'config', 'loss', 'loss', 'loss', 'loss', 'stop', 'login']))
+    scenario = draw(st.sampled_from(['loss', 'loss', 'loss', 'loss', 'loss', 'stop', 'stop', 'login', 'config', 'config']))
     any_point = st.sampled_from(['idle', 'burst', 'burst', 'burst', 'pending', 'prelogin', 'transfer', 'search', 'parent'])
     k = draw(st.integers(1, 20))
     if scenario == 'config':       # settings x plain life cycle (with or without pending work)
